@@ -48,9 +48,14 @@ CommandSignature ShellCommand::getSignature() const {
   if (!signatureData.empty()) {
     code = code.combine(signatureData);
   } else {
+    // The list lengths delimit the argument, environment and deps path lists
+    // from each other, so that moving a trailing element of one list to the
+    // front of the next one changes the signature.
+    code = code.combine(std::to_string(args.size()));
     for (const auto& arg: args) {
       code = code.combine(arg);
     }
+    code = code.combine(std::to_string(env.size()));
     for (const auto& entry: env) {
       code = code.combine(entry.first);
       code = code.combine(entry.second);
